@@ -355,6 +355,7 @@ A64_MNEMONICS = {
     3: ["add", "sub", "fadd", "fmul", "fmla", "ldp", "stp", "and", "orr", "eor", "mul", "fsub", "fdiv", "subs", "adds", "cinc", "tbz",
         "ld1d", "st1d", "ld1w", "fmax", "umov", "ins", "lsl", "asr", "ld2", "st2", "ccmp"],
     4: ["madd", "msub", "fmadd", "fmsub", "csel", "csinc", "fcsel", "ccmp", "ccmn", "fmla", "ld3", "st4", "fnmadd", "ext", "smaddl", "bfi", "ubfx"],
+    5: ["casp", "caspa", "caspal", "caspl", "sys", "fcmla", "tbx"],
 }
 A64_ID_HEADS = [".L", ".LBB0_", ".LC", "foo", "main", "_Z3fooPd", "kernel_", "loop_", ".Ltmp", "triad.", "func", "memcpy", "_start",
                 "less_than", "vs_loop", "spill_", "eq_", "hi_part", "d_loop", "ne.", "x_", "p_", "v_"]
@@ -525,7 +526,7 @@ def a64_list_text(r, L, inner):
 
 
 def a64_instr(r):
-    n = r.choice([0, 1, 1, 2, 2, 2, 3, 3, 3, 4, 4])
+    n = r.choice([0, 1, 1, 2, 2, 2, 3, 3, 3, 4, 4, 5])  # the grammar has five operand slots (casp x0, x1, x2, x3, [x4])
     ops = []
     k_last = r.random()
     last = None
